@@ -181,18 +181,6 @@ def r2(ctx):
         expr_fn.loc(),
     )
     lhs_name = next((u(n.targets[0]) for n in pre if u(n.value) == "self.primary()"), "expr")
-    # every operator of the table can be parsed where a full expression is expected: the precedence with which a whole
-    # expression starts (the default of the climbing parameter, used by evaluate(), parentheses, call arguments) is not
-    # above the lowest precedence in the table
-    a_ = expr_fn.node.args
-    dflt = dict(zip([x.arg for x in a_.args][len(a_.args) - len(a_.defaults):], a_.defaults))
-    climb = expr_fn.params[1] if len(expr_fn.params) > 1 else None
-    d0 = dflt.get(climb)
-    lowest = min(p_ for p_, _ in binops.values())
-    low_ops = sorted(o for o, (p_, _) in binops.items() if p_ == lowest)
-    if climb is None or not (isinstance(d0, ast.Constant) and isinstance(d0.value, int)):
-        raise AnalysisError("expression(): the climbing parameter has no integer default")
-    ctx.check(d0.value <= lowest, "preprocessor:ExpressionEvaluator.expression:whole-expression-admits-every-operator", f"a whole expression is parsed with {climb}={d0.value}, but {low_ops} have precedence {lowest}: the climbing loop stops in front of them, and evaluate() ignores what is left (`c ? a : b` evaluates to `c`)", expr_fn.loc())
     for op, (prec, assoc) in binops.items():
         # (a) loop entry condition
         for m in (prec - 1, prec, prec + 1):
@@ -724,3 +712,24 @@ def r8(ctx):
                     cb.loc(),
                 )
     ctx.floor(2)
+
+
+@rule("C02.R12", "a whole expression starts climbing at or below the lowest precedence of the operator table")
+def r12(ctx):
+    repo = ctx.repo
+    ee, binops, unops = op_tables(repo)
+    expr_fn = ee.find_method("expression")
+    ctx.require(expr_fn is not None, "ExpressionEvaluator.expression missing")
+    # every operator of the table can be parsed where a full expression is expected: the precedence with which a whole
+    # expression starts (the default of the climbing parameter, used by evaluate(), parentheses, call arguments) is not
+    # above the lowest precedence in the table
+    a_ = expr_fn.node.args
+    dflt = dict(zip([x.arg for x in a_.args][len(a_.args) - len(a_.defaults):], a_.defaults))
+    climb = expr_fn.params[1] if len(expr_fn.params) > 1 else None
+    d0 = dflt.get(climb)
+    lowest = min(p_ for p_, _ in binops.values())
+    low_ops = sorted(o for o, (p_, _) in binops.items() if p_ == lowest)
+    if climb is None or not (isinstance(d0, ast.Constant) and isinstance(d0.value, int)):
+        raise AnalysisError("expression(): the climbing parameter has no integer default")
+    ctx.check(d0.value <= lowest, "preprocessor:ExpressionEvaluator.expression:whole-expression-admits-every-operator", f"a whole expression is parsed with {climb}={d0.value}, but {low_ops} have precedence {lowest}: the climbing loop stops in front of them, and evaluate() ignores what is left (`c ? a : b` evaluates to `c`)", expr_fn.loc())
+    ctx.floor(1)
